@@ -16,7 +16,7 @@ EXTENDS P_C20, TLC, Json, SequencesExt
 CONSTANTS MaxDepth,     \* histories up to this length (Next is guarded, no CONSTRAINT)
           Gen,          \* TRUE: keep the history and print GEN lines
           GenMod,       \* print one of GenMod histories (deterministic subset)
-          Alphabet      \* "small" | "grid"
+          Alphabet      \* "small" | "gen" | "grid"
 VARIABLES d, rf, last, depth, hist, hh
 vars == <<d, rf, last, depth, hist, hh>>
 
@@ -35,18 +35,23 @@ Cl == [o |-> "c"]                                 \* reference := display.clone(
 Sw == [o |-> "x"]                                 \* swap(display, reference)
 Px(p, c) == <<p[1], p[2], c>>
 
-P0 == <<0, 0>>   P1 == <<Mx, Mx>>   P2 == <<1, 1>>       \* first cell, last cell, a middle cell
+\* three cells that are extreme in different directions (MapX / MapY below send them to (31,0),
+\* (63,63) = the last cell and (0,32)), the first cell Q, one point beyond each side
+P0 == <<1, 0>>   P1 == <<Mx, Mx>>   P2 == <<0, 1>>   Q == <<0, 0>>
 OutL == <<-1, 1>>   OutR == <<SIZE, 1>>   OutT == <<1, -1>>   OutB == <<1, SIZE>>
 
-SmallOps ==
+\* q = the point used by the two list operations that may touch a fourth cell
+OpsWith(q) ==
   << Dr(<<Px(P0, 0)>>), Dr(<<Px(P0, 1)>>), Dr(<<Px(P1, 0)>>), Dr(<<Px(P1, 1)>>), Dr(<<Px(P2, 0)>>), Dr(<<Px(P2, 1)>>),
      Dr(<<Px(OutL, 0)>>), Dr(<<Px(OutR, 0)>>), Dr(<<Px(OutT, 0)>>), Dr(<<Px(OutB, 0)>>),
-     Dr(<<Px(P0, 0), Px(P0, 1)>>),                     \* the same point twice in one call
+     Dr(<<Px(q, 0), Px(q, 1)>>),                       \* the same point twice in one call
      Dr(<<Px(P1, 0), Px(OutR, 0), Px(P2, 1)>>),        \* inside, outside, inside
      Dr(<<Px(P2, 1), Px(P1, 1)>>),
-     Dr(<<Px(OutB, 1), Px(P0, 1)>>),                   \* outside first
+     Dr(<<Px(OutB, 1), Px(q, 1)>>),                    \* outside first
      St(P0, NoColour), St(P1, NoColour), St(P2, 1),
      Tv, Tb, Cl, Sw >>
+SmallOps == OpsWith(P0)     \* three cells: the complete state graph stays small (11 664 states)
+GenOps == OpsWith(Q)        \* four cells, for the depth-bounded generation of histories
 
 GridOps ==
      SetToSeq({ Dr(<<Px(p, c)>>) : p \in Grid, c \in Colours })
@@ -55,7 +60,7 @@ GridOps ==
   \o SetToSeq({ St(p, NoColour) : p \in Grid })
   \o << St(P2, 1), Tv, Tb, Cl, Sw >>
 
-Ops == IF Alphabet = "small" THEN SmallOps ELSE GridOps
+Ops == IF Alphabet = "small" THEN SmallOps ELSE IF Alphabet = "gen" THEN GenOps ELSE GridOps
 
 \* effect of an operation: [d, rf, out]
 Apply(op, a, b) ==
